@@ -22,7 +22,11 @@ type Solver struct {
 	Log     *os.File
 	open    bool // a (push) frame is open (for get-value)
 	Errors  int
+	fresh   *Solver // last one-shot (non-incremental) process, kept for LastModel
+	oneShot bool
 }
+
+var dumpN int
 
 const prelude = `(define-fun rhe ((n Int) (d Int)) Int (let ((s (ite (< n 0) (- 1) 1)) (a (abs n))) (let ((q (div a d)) (r (mod a d))) (* s (ite (< (* 2 r) d) q (ite (> (* 2 r) d) (+ q 1) (ite (= (mod q 2) 0) q (+ q 1))))))))
 (define-fun tdiv ((n Int) (d Int)) Int (ite (>= n 0) (ite (> d 0) (div n d) (- (div n (- d)))) (ite (> d 0) (- (div (- n) d)) (div (- n) (- d)))))
@@ -57,6 +61,10 @@ func (s *Solver) start() {
 }
 
 func (s *Solver) Close() {
+	if s.fresh != nil {
+		s.fresh.Close()
+		s.fresh = nil
+	}
 	if s.cmd != nil {
 		s.in.Close()
 		s.cmd.Process.Kill()
@@ -86,6 +94,10 @@ func (s *Solver) closeFrame() {
 func (s *Solver) Check(decls []string, asserts []string, timeoutMs int) string {
 	t0 := time.Now()
 	s.closeFrame()
+	if s.fresh != nil {
+		s.fresh.Close()
+		s.fresh = nil
+	}
 	s.Queries++
 	var sb strings.Builder
 	sb.WriteString("(push)\n")
@@ -145,6 +157,10 @@ func (s *Solver) Check(decls []string, asserts []string, timeoutMs int) string {
 	if s.Log != nil {
 		fmt.Fprintln(s.Log, "; ->", res, time.Since(t0))
 	}
+	if d := os.Getenv("VRF_DUMP"); d != "" && res == "unknown" && timeoutMs >= 10000 {
+		dumpN++
+		os.WriteFile(fmt.Sprintf("%s/q%d_%d.smt2", d, os.Getpid(), dumpN), []byte(prelude+"\n"+strings.Replace(sb.String(), "(push)\n", "", 1)+"\n"), 0o644)
+	}
 	s.Time += time.Since(t0)
 	return res
 }
@@ -155,8 +171,88 @@ func (s *Solver) restart() {
 	s.start()
 }
 
+// CheckFresh decides the query in a new solver process without push/pop: z3 then uses
+// its full (non-incremental) nonlinear pipeline, which closes queries the incremental
+// core times out on. The process is kept until the next query so that LastModel works.
+func (s *Solver) CheckFresh(decls []string, asserts []string, timeoutMs int) string {
+	t0 := time.Now()
+	s.closeFrame()
+	if s.fresh != nil {
+		s.fresh.Close()
+		s.fresh = nil
+	}
+	s.Queries++
+	f := &Solver{bin: s.bin, oneShot: true}
+	f.start()
+	var sb strings.Builder
+	for _, d := range decls {
+		sb.WriteString(d)
+		sb.WriteByte('\n')
+	}
+	for _, a := range asserts {
+		sb.WriteString("(assert ")
+		sb.WriteString(a)
+		sb.WriteString(")\n")
+	}
+	if strings.Contains(s.bin, "cvc5") {
+		fmt.Fprintf(&sb, "(set-option :tlimit-per %d)\n", timeoutMs)
+	} else {
+		fmt.Fprintf(&sb, "(set-option :timeout %d)\n", timeoutMs)
+	}
+	sb.WriteString("(check-sat)")
+	f.send(sb.String())
+	res := "unknown"
+	type rd struct {
+		line string
+		err  error
+	}
+	ch := make(chan rd, 1)
+	out := f.out
+	go func() {
+		for {
+			line, err := out.ReadString('\n')
+			l := strings.TrimSpace(line)
+			if err != nil || l == "sat" || l == "unsat" || l == "unknown" || strings.HasPrefix(l, "(error") {
+				ch <- rd{l, err}
+				return
+			}
+		}
+	}()
+	select {
+	case r := <-ch:
+		if r.err == nil && !strings.HasPrefix(r.line, "(error") {
+			res = r.line
+		} else if strings.HasPrefix(r.line, "(error") {
+			s.Errors++
+			fmt.Fprintln(os.Stderr, "SOLVER ERROR:", r.line)
+		}
+	case <-time.After(time.Duration(timeoutMs)*time.Millisecond + 15*time.Second):
+		f.Close()
+		<-ch
+	}
+	if res == "sat" {
+		f.open = true
+		s.fresh = f
+	} else {
+		f.Close()
+	}
+	if d := os.Getenv("VRF_DUMP"); d != "" && res == "unknown" && timeoutMs >= 10000 {
+		dumpN++
+		os.WriteFile(fmt.Sprintf("%s/f%d_%d.smt2", d, os.Getpid(), dumpN), []byte(prelude+"\n"+sb.String()+"\n"), 0o644)
+	}
+	s.Time += time.Since(t0)
+	return res
+}
+
 // LastModel returns the values of the given constants after a sat answer.
 func (s *Solver) LastModel(names []string) map[string]string {
+	if s.fresh != nil {
+		f := s.fresh
+		s.fresh = nil
+		m := f.LastModel(names)
+		f.Close()
+		return m
+	}
 	out := map[string]string{}
 	if !s.open || len(names) == 0 {
 		return out
